@@ -3,7 +3,14 @@
 PROVED (kernel-checked, registered in lean/registry.json): the apply pipeline — Apply.publish_spec / Apply.apply_exactly_once (every
 committed entry reaches the state machine exactly once, in index order, however the Ready batches overlap) — and, on the abstract
 protocol, RS.commit_order_respects_real_time (a proposal made after an index was committed lands strictly behind it); C15's safety
-theorems are named hypotheses.  TIED to the code by the `apply` engine: random overlapping Ready batches (incl. batches that start
+theorems are named hypotheses.  OWN REPLY (Props/C07Own.lean on the rendezvous model Cluster/Rendezvous.lean, abstract state machine):
+Rendezvous.own_reply (under UniqueIds the k-th reply of a connection is the reply of its own k-th command at that command's log entry),
+no_reply_without_commit, waiter_never_stuck_after_apply, foreign_entries_deliver_nothing, real_time_order and C07_linearizable_partial (the
+history of one node's clients is linearizable with the log order as witness); own_reply_needs_unique_ids / _append_once show the hypothesis
+is needed.  TIED by the `rendezvous` engine: the REAL Manager.HandleCluster (clients over net.Pipe) and the REAL handleClusterCommits
+(hook H3) with the harness playing raft - proposals committed delayed, reordered across connections, in batches of random sizes, mixed
+with foreign and replayed entries, while clients pipeline - replayed on Rendezvous.next with Exec.exec as the state machine; every
+delivered reply is compared byte for byte (thorough tier: also under the race detector).  TIED to the code by the `apply` engine: random overlapping Ready batches (incl. batches that start
 beyond applied+1, which must be refused) through the REAL entriesToApply/publishEntries vs Apply.publish, and by fact F4.
 
 NOT PROVED — EXPLORED: the end-to-end statement.  The `cluster` engine starts 3 and 5 real node processes on loopback, runs 4-16
@@ -13,7 +20,7 @@ member, and checks: no node exits on its own; one well-formed reply per command;
 unknown-outcome commands may take effect at any later point or never); all nodes return the same value for every key at quiescence.
 Commands whose effect depends on the replica's clock or random source (relative TTLs, SPOP/SRANDMEMBER, XADD *) are kept out of the
 workload: each has its own minimal scenario and is a recorded known finding."""
-from .. import core, clustersuite
+from .. import core, clustersuite, rendezvousgen
 
 LEVEL = "proof"
 KNOWN_HERE = ["replicas-own-clock-ttl", "replicas-own-random-spop", "replicas-own-clock-xadd"]
@@ -28,8 +35,10 @@ def run(R, ctx):
         return
     clustersuite.fact_f4(R, broken_is_violation=False)   # recorded here; C08 owns the persist-before-ack obligation
     clustersuite.apply_differential(R, ctx, binary, 3000 if R.tier == "quick" else 60000)
+    rendezvousgen.run_suite(R, ctx, binary, 600 if R.tier == "quick" else 12000)
     clustersuite.run_cluster(R, ctx, "C07", binary, known, KNOWN_HERE)
-    R.rule = ("apply: a batch line is non-trivial when it publishes at least one entry. cluster: a scenario is non-trivial when clients got "
+    R.rule = ("apply: a batch line is non-trivial when it publishes at least one entry. rendezvous: a line is non-trivial when at least one "
+              "committed proposal's reply reached its connection and was compared. cluster: a scenario is non-trivial when clients got "
               "acknowledgements AND at least one fault was injected; evaluations = client commands issued (acknowledged + unknown outcome).")
     if ctx.broken and not R.violations:
         R.violation("proof-broken", dict(kind="proof-broken", broken=ctx.broken,
